@@ -132,6 +132,7 @@ type caseIn struct {
 	UseCloser bool   `json:"use_closer"` // LocalConnCloser configured
 	Order     string `json:"order"`      // halfclose mode: "peer-first" | "local-first"
 	Dialog    []stepIn `json:"dialog"`   // dialog mode
+	Rounds    []roundIn `json:"rounds"`  // pool mode
 }
 
 type markIn struct {
@@ -186,6 +187,7 @@ type caseOut struct {
 	Sent      int64  `json:"sent"` // BytesSentCounter / BytesReceivedCounter after the run (gated, fwdcut)
 	Recv      int64  `json:"recv"`
 
+	Reused  []bool `json:"reused,omitempty"`  // pool mode: per round, was the connection a reused pooled one
 	Skipped bool   `json:"skipped,omitempty"` // not run: the hang budget of this harness invocation was used up
 	Steps  []stepObs `json:"steps,omitempty"` // dialog mode
 	Hashes bool    `json:"hashes"`          // tid mode: this tree derives long wire ids from the whole string
@@ -1148,6 +1150,8 @@ func runCase(raw json.RawMessage) (res interface{}) {
 		runHalfClose(&c, out)
 	case "dialog":
 		runDialog(&c, out)
+	case "pool":
+		runPool(&c, out)
 	default:
 		panic("bad mode " + c.Mode)
 	}
